@@ -544,7 +544,7 @@ fn gen_basic(rng: &mut Rng) -> Value {
     let kind = if rng.chance(1, 2) { "basic" } else { *rng.pick(&["basic", "nopad", "noncanon", "lower", "upper", "twospace", "nospace", "tab", "bearer", "digest", "schemeonly", "missing",
         "badchar", "trailing", "lead", "midpad", "nonutf8_last", "nonutf8_trunc", "nonutf8_mid", "nonutf8_repl", "rawff"]) };
     json!({"mod": "basic", "form": if n == 1 && rng.chance(1, 2) { "single" } else { "array" }, "mount": *rng.pick(&["top", "nested"]),
-           "method": *rng.pick(&["GET", "POST", "GET", "HEAD"]),
+           "method": *rng.pick(&["GET", "POST", "GET", "HEAD", "OPTIONS"]),
            "pairs": pairs.iter().map(|(u, p)| json!({"u": u, "p": p})).collect::<Vec<_>>(),
            "hdr": {"kind": kind, "cred": c}, "cs": (rng.next() % 1_000_000) as u64})
 }
